@@ -17,6 +17,7 @@ use std::sync::Mutex;
 use tokio::sync::{mpsc, oneshot};
 
 pub use crate::cmd::{LocalSwarmCmd, NetworkSwarmCmd};
+pub use crate::record_store::NodeRecordStoreConfig;
 
 // ------------------------------------------------------------------------------------------
 // Task gates
